@@ -1394,8 +1394,8 @@ Proof.
   - apply mutate_cong; auto.
   - apply mutate_cong; auto.
   - apply after_bump_cong. destruct E as (L & H). destruct (H r) as (Rg & Bb & Sb & Fl).
-    apply core_set_cong; [split; auto|]. repeat split; cbn; try congruence.
-    rewrite Fl, Sb. reflexivity.
+    apply core_set_cong; [split; auto|]. repeat split; cbn; try congruence;
+      try (rewrite Fl, Sb; reflexivity).
 Qed.
 
 Lemma spec_changed_core g x s : core_eq s (spec_changed g x s).
